@@ -31,12 +31,13 @@ def run_quantile_case(case):
     from flox.core import groupby_reduce
 
     warnings.filterwarnings("ignore")
-    vals = redcase.concretize(case["vals"], "f8")
+    dt = case.get("dtype", "f8")
+    vals = redcase.concretize(case["vals"], dt)
     nb = case.get("batch", 0)
     array = np.stack([vals + 10 * b if False else np.roll(vals, 0) for b in range(nb)]) if nb else vals
     if nb:
         rows = [case["vals"]] + case["batch_rows"]
-        array = np.stack([redcase.concretize(r, "f8") for r in rows])
+        array = np.stack([redcase.concretize(r, dt) for r in rows])
     by = redcase.label_array(case["codes"], case.get("label_kind", "int"))
     kw = dict(func=case["func"], engine=case.get("engine"))
     qs = case.get("qs")
@@ -64,15 +65,17 @@ def run_quantile_case(case):
     return out
 
 
-def build(vals, codes, func, engine, qsel, scalar_q, batch, mode):
+def build(vals, codes, func, engine, qsel, scalar_q, batch, mode, dtype="f8"):
     isq = func in ("quantile", "nanquantile")
+    if dtype != "f8" and (any(v[1] != 1 for v in vals) or (dtype == "u1" and any(v[0] < 0 for v in vals))):
+        return None
     if not isq and (qsel != 0 or not scalar_q):
         return None
     qs = [QS[qsel]] if scalar_q else [QS[(qsel + j) % len(QS)] for j in (0, 3, 1)]
     if engine == "numpy" and isq and not scalar_q:
         return None  # documented refusal
     c = {"func": func, "vals": vals, "codes": codes, "label_kind": "float" if min(codes) < 0 else "int", "engine": engine,
-         "qs": qs if isq else [[1, 2]], "scalar_q": scalar_q or not isq, "batch": 0}
+         "qs": qs if isq else [[1, 2]], "scalar_q": scalar_q or not isq, "batch": 0, "dtype": dtype}
     if batch:
         c["batch"] = 2
         c["batch_rows"] = [list(reversed(vals))]
@@ -91,6 +94,10 @@ def run(ctx):
     spaces = [gen.Space(f"n{n}", {"vals": gen.seqs(ALPHA, n), "codes": pats[n], "func": ["median", "nanmedian", "quantile", "nanquantile"],
                                   "engine": [None, "flox", "numpy"], "qsel": range(len(QS)), "scalar_q": [True, False], "batch": [False, True],
                                   "mode": ["eager", "eager", 0, 1, 3, 6]}, build) for n in (3, 4, 5, 6)]
+    # integer data (the interpolation weight must stay fractional): even-sized groups, general q
+    spaces.append(gen.Space("int", {"vals": gen.seqs([gen.iv(-2), gen.iv(0), gen.iv(1), gen.iv(4), gen.iv(7)], 4), "codes": pats[4],
+                                    "func": ["median", "nanmedian", "quantile", "nanquantile"], "engine": [None, "flox", "numpy"], "qsel": range(len(QS)),
+                                    "scalar_q": [True, False], "batch": [False, True], "mode": ["eager", 0, 3], "dtype": ["i8", "i4", "u1"]}, build))
     budget = 16000 if ctx.tier == "quick" else 300000
     cases = []
     for sp in spaces:
